@@ -660,11 +660,12 @@ pub fn run_l1(scn: &C10Scenario, stats: &mut RunStats) -> Vec<Violation> {
                     let result = exec::catch(|| {
                         if is_add {
                             if scn.use_add_source {
+                                // the output path exactly as `collect_work` would spell it
                                 let input = gen::normalize(&opts.input);
-                                let out = output_dir(&opts);
-                                let mirror = path
-                                    .strip_prefix(&format!("{}/", input))
-                                    .map(|rel| gen::join(&out, rel));
+                                let out = opts.output.clone().unwrap_or_default();
+                                let mirror = path.strip_prefix(&format!("{}/", input)).map(|rel| {
+                                    Path::new(&out).join(rel).to_string_lossy().into_owned()
+                                });
                                 if gen::is_lua(path) && mirror.is_some() {
                                     tree.add_source(Path::new(path), mirror.map(Into::into));
                                 } else {
